@@ -126,7 +126,11 @@ def run(prop, tier):
                 rd = au.AudioReader(b"\0" * 40, block_dur=W / rate, sr=rate, sw=1, ch=1)
                 W = rd.block_size
                 case = (42, [C.fhex_me(mind), C.fhex_me(maxd), C.fhex_me(sil), W, rate])
-                call = lambda: list(au.split(rd, min_dur=mind, max_dur=maxd, max_silence=sil))
+                # an analysis_window keyword given next to an AudioReader input has no say: w is the reader's block duration
+                extra = {}
+                if r.random() < 0.5:
+                    extra[r.choice(["analysis_window", "aw"])] = r.choice([0.05, 0.01, 0.1, 0.02, 0.2, 0.5, 2 * W / rate, W / rate / 2, r.randint(1, 200) / 1000])
+                call = lambda: list(au.split(rd, min_dur=mind, max_dur=maxd, max_silence=sil, **extra))
             else:
                 case = (41, [C.fhex_me(mind), C.fhex_me(maxd), C.fhex_me(sil), C.fhex_me(aw), rate])
                 call = lambda: list(au.split(b"\0" * 40, min_dur=mind, max_dur=maxd, max_silence=sil, analysis_window=aw, sr=rate, sw=1, ch=1))
@@ -139,7 +143,7 @@ def run(prop, tier):
             must_reject = mind <= 0 or maxd <= 0 or sil < 0 or ((aw <= 0 or int(aw * rate) == 0) and not use_reader)
             if viol is None and must_reject and got != [1, 1]:
                 viol = {"what": "split(min_dur=%r, max_dur=%r, max_silence=%r, %s) %s; the statement requires ValueError for non-positive min_dur/max_dur/analysis_window, negative max_silence or a window shorter than one sample" % (
-                    mind, maxd, sil, ("AudioReader input with block of %d samples at %d Hz" % (W, rate)) if use_reader else "analysis_window=%r, sampling_rate=%d" % (aw, rate),
+                    mind, maxd, sil, ("AudioReader input with block of %d samples at %d Hz%s" % (W, rate, "".join(", %s=%r" % kv for kv in extra.items()))) if use_reader else "analysis_window=%r, sampling_rate=%d" % (aw, rate),
                     "was accepted (window counts %r)" % (got[1],) if got[0] == 0 else "raised error code %r" % (got[1],)),
                         "min_dur": mind, "max_dur": maxd, "max_silence": sil, "analysis_window": None if use_reader else aw, "rate": rate, "AudioReader_input": use_reader}
             # the statement's window counts, in exact rational arithmetic on the values given (w = the reader's block duration
@@ -159,9 +163,9 @@ def run(prop, tier):
                             mind, maxd, sil, float(wq), got[1], exp)}
                     elif not reject and got[1][:3] != exp:
                         viol = {"what": "split(min_dur=%r, max_dur=%r, max_silence=%r, window %s s%s) derives (min, max, max_silence) = %r windows, the statement gives ceil/floor/floor = %r" % (
-                            mind, maxd, sil, float(wq), ", AudioReader input" if use_reader else ", analysis_window argument", got[1][:3], exp)}
+                            mind, maxd, sil, float(wq), (", AudioReader input" + "".join(" with keyword %s=%r" % kv for kv in extra.items())) if use_reader else ", analysis_window argument", got[1][:3], exp)}
                     if viol is not None:
-                        viol.update({"min_dur": mind, "max_dur": maxd, "max_silence": sil, "analysis_window": None if use_reader else aw, "rate": rate, "AudioReader_input": use_reader})
+                        viol.update({"min_dur": mind, "max_dur": maxd, "max_silence": sil, "analysis_window": None if use_reader else aw, "rate": rate, "AudioReader_input": use_reader, "extra_keywords": extra if use_reader else {}})
             cases.append(case); impl.append(got)
             meta.append({"split": {"min_dur": mind, "max_dur": maxd, "max_silence": sil, "analysis_window": (W / rate if use_reader else aw), "rate": rate, "AudioReader_input": use_reader}})
     finally:
